@@ -83,6 +83,7 @@ func vhEdit(r *vhReplica, idx int) {
 	}
 	floor := r.hlv.maxValueForSource(vhSources[idx])
 	vAssert(floor <= r.vv[idx], "edit: version floor does not exceed the ground truth for the source")
+	vAssert(floor == r.vv[idx], "edit: the version floor is the highest version of the source the vector knows (a new version must exceed it)")
 	err := r.hlv.AddVersion(Version{SourceID: vhSources[idx], Value: v})
 	vAssert(err == nil, "edit: AddVersion accepts a newer version of the local source")
 	r.vv[idx] = v
@@ -128,6 +129,7 @@ func vhPull(dst *vhReplica, dstIdx int, src *vhReplica) {
 		case 2: // merge (resolveDocMergeHLV)
 			n := dst.hlv.Copy()
 			srcID := vhSources[dstIdx]
+			vAssert(dst.hlv.maxValueForSource(srcID) == dst.vv[dstIdx] && incoming.maxValueForSource(srcID) == src.vv[dstIdx], "merge: each vector's version floor is the highest version of the source it knows")
 			floor := max(dst.hlv.maxValueForSource(srcID), incoming.maxValueForSource(srcID))
 			merged := vhVVMax(dst.vv, src.vv)
 			vAssert(floor <= merged[dstIdx], "merge: version floor does not exceed the ground truth")
